@@ -48,7 +48,8 @@ META = dict(
               "run on *tokenised corpus files* (every decimal number of a fixture replaced by a symbolic token): each "
               "dimensional attribute element must be (unit factor) x (one file number) with the factor the format "
               "prescribes; layout-writer files for sdf, pdb, gro, mol2, xyz, extxyz, poscar, chgcar, locpot, cube, crd are "
-              "checked with CODATA-2018 constants in C03 (tolerance 1e-7); writers follow from C02 (reader o writer = id)",
+              "checked with CODATA-2018 constants in C03 (tolerance 1e-7); writers follow from C02 (reader o writer = id); "
+              "writing in a format with other units leaves the object's own values untouched (units-after-dump, 12 formats)",
         thorough="more corpus files per format"),
     outside=["attribute elements that are not affine in a single file number (reported as undecided)",
              "molden / molekel coordinates (the vendor cascade makes the tokenised run intractable; units are part of C05)",
@@ -218,6 +219,13 @@ def h_molden_units(ctx, unit="(Angs)", twin=False):
     ctx.oblige("molden-coordinates-in-atomic-units", ctx.approx(d.atcoords, want, 1e-7, atol=1e-9), cls=unit)
 
 
+def h_units_after_dump(ctx, fmt="fchk", natom=2, variant="post"):
+    """Writing an object in a format with other units must leave the object's own values in atomic units (the writer converts
+    a copy): every attribute after dump_one equals the attribute before, as terms."""
+    from harness import rt
+    return rt.h_roundtrip(ctx, fmt=fmt, natom=natom, variant=variant, prop="C09")
+
+
 def jobs(tier):
     M = "harness.c04"
     out = [job("C04", "unit-constants", M, "h_constants", {}, validate=False)]
@@ -226,6 +234,11 @@ def jobs(tier):
                        budget_s=600, max_validate=0, validate=False))
     for unit in ("AU", "(AU)", "Angs", "(Angs)", "(ANGS)", "au"):
         out.append(job("C04", f"molden-units[{unit}]", M, "h_molden_units", dict(unit=unit), max_validate=2))
+    for fmt, n, var in (("fchk", 2, "post"), ("xyz", 2, "default"), ("pdb", 3, "full"), ("mol2", 3, "full"), ("sdf", 3, "bonds"),
+                        ("poscar", 3, "lower"), ("cube", 2, "234"), ("wfx", 2, "full"), ("wfn", 2, "full"), ("molekel", 2, "full"),
+                        ("molden", 2, "ecp"), ("json", 3, "full")):
+        out.append(job("C04", f"units-after-dump[{fmt}]", M, "h_units_after_dump", dict(fmt=fmt, natom=n, variant=var), max_validate=2,
+                       max_paths=200))
     out.append(job("C04", "molden-units[twin]", M, "h_molden_units", dict(unit="AU", twin=True), expect="cex", max_validate=0))
     out.append(job("C04", "corpus[twin]", M, "h_corpus",
                    dict(fmt="charmm", fn="crambin.crd", units={"atcoords": "angstrom"}, twin=True), expect="cex",
